@@ -10,8 +10,8 @@ from ..explore import Stats, explore_parallel
 from ..lifecycle import LifeHarness, LifeWorld, Oracle
 from ..vloop import HarnessError
 
-ATOMS_PLAIN = ("H", "C", "DR", "DRESP", "PR", "ST", "BAD", "PRE")
-ATOMS_NOISE = ("NH", "H", "C", "DR", "DRESP", "ST", "BAD", "TAMPER")
+ATOMS_PLAIN = ("H", "C", "DR", "DRESP", "PR", "ST", "UKD", "BAD", "PRE")
+ATOMS_NOISE = ("NH", "H", "C", "DR", "DRESP", "ST", "UKD", "BAD", "TAMPER")
 PAIRS = (
     ("C", "DR"), ("ST", "DR"), ("DR", "ST"), ("BAD", "DR"), ("DR", "BAD"), ("DRESP", "DR"), ("PR", "DR"), ("DR", "DR"),
     ("H", "DR"), ("DRESP", "ST"), ("H", "C"),
